@@ -10,6 +10,14 @@
 (* instant for all slots.  IsAnyPipelineRegistered reads all slots at one  *)
 (* instant (read lock).                                                    *)
 (*                                                                         *)
+(* Every registration brings its own three fresh nodes (a version): nst    *)
+(* follows them.  "idle": registered, referenced by no pipeline; "live":   *)
+(* referenced by the pipeline in some slot; "gone": removed and closed.    *)
+(* RegisterPipeline over an occupied slot and RemovePipeline release the   *)
+(* old version's nodes (idle), RemovePipelineAndNodes removes them (gone)  *)
+(* in the same atomic step that empties the slot.  At quiescence the       *)
+(* recorder probes every version with RemoveNode ("nprobe").               *)
+(*                                                                         *)
 (* The module is written for trace validation: Traces holds recorded       *)
 (* histories (invocation / response events in global sequence order, with  *)
 (* results); TLC searches for linearisation points that explain the        *)
@@ -21,10 +29,10 @@
 EXTENDS Naturals, Sequences, FiniteSets, TLC, Json
 Traces == ndJsonDeserialize("conc.ndjson")
 PIDs == {"p1", "p2", "p3"}
-VARIABLES tr, l, slots, pend
-vars == <<tr, l, slots, pend>>
+VARIABLES tr, l, slots, pend, nst
+vars == <<tr, l, slots, pend, nst>>
 H == Traces[tr].h
-Init == tr \in 1..Len(Traces) /\ l = 1 /\ slots = [p \in PIDs |-> 0] /\ pend = <<>>
+Init == tr \in 1..Len(Traces) /\ l = 1 /\ slots = [p \in PIDs |-> 0] /\ pend = <<>> /\ nst = <<>>
 Ops == {pend[i].op : i \in 1..Len(pend)}
 IdxOf(op) == CHOOSE i \in 1..Len(pend) : pend[i].op = op
 RemoveAt(s, i) == SubSeq(s, 1, i-1) \o SubSeq(s, i+1, Len(s))
@@ -32,29 +40,36 @@ Fld(r, f, d) == IF f \in DOMAIN r THEN r[f] ELSE d
 Inv == /\ l <= Len(H) /\ H[l].k = "inv"
        /\ pend' = Append(pend, [op |-> H[l].op, kind |-> H[l].kind, pid |-> Fld(H[l], "pid", "-"), ver |-> Fld(H[l], "ver", 0),
                                st |-> "inv", visited |-> {}, seen |-> {}, any |-> "?"])
+       /\ nst' = IF H[l].kind = "reg" THEN nst @@ (H[l].ver :> "idle") ELSE nst   \* its nodes were registered before the call
        /\ l' = l + 1 /\ UNCHANGED <<tr, slots>>
 Burst == l <= Len(H) /\ H[l].k = "resp"
 (* linearisation point of an update of slot pid; the Sends in S read the old value just before it *)
-Lin(i, S) == /\ Burst /\ pend[i].st = "inv" /\ pend[i].kind \in {"reg", "rem"}
+Lin(i, S) == /\ Burst /\ pend[i].st = "inv" /\ pend[i].kind \in {"reg", "rem", "rpan"}
              /\ \A j \in S : pend[j].kind = "send" /\ pend[i].pid \notin pend[j].visited
              /\ slots' = [slots EXCEPT ![pend[i].pid] = IF pend[i].kind = "reg" THEN pend[i].ver ELSE 0]
              /\ pend' = [j \in 1..Len(pend) |->
-                    IF j = i THEN [pend[j] EXCEPT !.st = "lin"]
+                    IF j = i THEN [pend[j] EXCEPT !.st = "lin", !.any = IF slots[pend[i].pid] # 0 THEN "t" ELSE "f"]
                     ELSE IF j \in S THEN [pend[j] EXCEPT !.visited = @ \cup {pend[i].pid},
                                                           !.seen = IF slots[pend[i].pid] = 0 THEN @ ELSE @ \cup {slots[pend[i].pid]}]
                     ELSE pend[j]]
+             /\ LET old == slots[pend[i].pid]
+                    n1 == IF old = 0 THEN nst ELSE [nst EXCEPT ![old] = IF pend[i].kind = "rpan" THEN "gone" ELSE "idle"]
+                IN nst' = IF pend[i].kind = "reg" THEN [n1 EXCEPT ![pend[i].ver] = "live"] ELSE n1
              /\ UNCHANGED <<tr, l>>
 (* IsAnyPipelineRegistered reads all slots at one instant *)
 LinAny(i) == /\ Burst /\ pend[i].st = "inv" /\ pend[i].kind = "isany"
              /\ pend' = [pend EXCEPT ![i].st = "lin", ![i].any = IF \E p \in PIDs : slots[p] # 0 THEN "t" ELSE "f"]
-             /\ UNCHANGED <<tr, l, slots>>
+             /\ UNCHANGED <<tr, l, slots, nst>>
 Resp == /\ l <= Len(H) /\ H[l].k = "resp" /\ H[l].op \in Ops
         /\ LET i == IdxOf(H[l].op)
                rest == {slots[p] : p \in {q \in PIDs \ pend[i].visited : slots[q] # 0}}
            IN /\ CASE pend[i].kind = "send" ->
                         pend[i].seen \cup rest = (IF "res" \in DOMAIN H[l] THEN {H[l].res[j] : j \in 1..Len(H[l].res)} ELSE {})
                    [] pend[i].kind = "isany" -> pend[i].st = "lin" /\ pend[i].any = H[l].any
+                   [] pend[i].kind = "rpan" -> pend[i].st = "lin" /\ pend[i].any = H[l].removed   \* true exactly when it found the pipeline
+                   [] pend[i].kind = "nprobe" -> H[l].res = (CASE nst[pend[i].ver] = "live" -> "inuse" [] nst[pend[i].ver] = "idle" -> "ok" [] OTHER -> "notfound")
                    [] OTHER -> pend[i].st = "lin"
+              /\ nst' = IF pend[i].kind = "nprobe" /\ nst[pend[i].ver] = "idle" THEN [nst EXCEPT ![pend[i].ver] = "gone"] ELSE nst
               /\ pend' = RemoveAt(pend, i)
         /\ l' = l + 1 /\ UNCHANGED <<tr, slots>>
 Next == \/ Inv \/ Resp
